@@ -159,6 +159,16 @@ var b64encs = []*base64.Encoding{base64.StdEncoding, base64.URLEncoding, base64.
 func genEnc(t *rapid.T) encCase {
 	c := encCase{Op: rapid.SampledFrom([]string{"hexenc", "hexdec", "hexdec", "hexinplace", "b64enc", "b64dec"}).Draw(t, "op"), Enc: rapid.IntRange(0, 3).Draw(t, "enc")}
 	raw := rapid.SliceOfN(rapid.Byte(), 0, 20).Draw(t, "raw")
+	if rapid.IntRange(0, 19).Draw(t, "long") == 0 {
+		raw = g.BytesLen(rapid.SampledFrom([]int{63, 64, 65, 255, 256, 257, 1023, 1024, 1025, 4096, 5000}).Draw(t, "longLen")).Draw(t, "longRaw")
+	}
+	// a wrong character is any byte value: fixed lists of "typical" bad characters miss whole classes (control bytes, 0x80..0xff)
+	anyBad := func(label string, typical []byte) byte {
+		if rapid.Bool().Draw(t, label+"Any") {
+			return rapid.Byte().Draw(t, label+"Byte")
+		}
+		return rapid.SampledFrom(typical).Draw(t, label)
+	}
 	switch c.Op {
 	case "hexenc", "b64enc":
 		c.S = raw
@@ -176,13 +186,13 @@ func genEnc(t *rapid.T) encCase {
 			}
 		case 1:
 			if len(s) > 0 {
-				s[rapid.IntRange(0, len(s)-1).Draw(t, "pos")] = rapid.SampledFrom([]byte("gG/:@`\x00\xff ")).Draw(t, "bad")
+				s[rapid.IntRange(0, len(s)-1).Draw(t, "pos")] = anyBad("bad", []byte("gG/:@`\x00\xff "))
 			}
 		case 3: // two adjacent bad characters (both halves of one pair, or straddling two pairs)
 			if len(s) >= 2 {
 				i := rapid.IntRange(0, len(s)-2).Draw(t, "pos")
-				s[i] = rapid.SampledFrom([]byte("xgG:\r \x00\xff")).Draw(t, "bad1")
-				s[i+1] = rapid.SampledFrom([]byte("yzZ/\n@\x01\xfe")).Draw(t, "bad2")
+				s[i] = anyBad("bad1", []byte("xgG:\r \x00\xff"))
+				s[i+1] = anyBad("bad2", []byte("yzZ/\n@\x01\xfe"))
 			}
 		case 4: // short strings over a hostile alphabet
 			s = []byte(rapid.StringOfN(rapid.RuneFrom([]rune("0123456789abcdefABCDEFxXgG \r\n:")), 0, 6, -1).Draw(t, "hostile"))
@@ -202,7 +212,7 @@ func genEnc(t *rapid.T) encCase {
 			}
 		case 1:
 			if len(s) > 0 {
-				s[rapid.IntRange(0, len(s)-1).Draw(t, "pos")] = rapid.SampledFrom([]byte("-_+/=\n\r !A")).Draw(t, "bad")
+				s[rapid.IntRange(0, len(s)-1).Draw(t, "pos")] = anyBad("bad", []byte("-_+/=\n\r !A"))
 			}
 		case 2:
 			s = append(s, rapid.SampledFrom([]string{"=", "==", "A", "\n"}).Draw(t, "tail")...)
